@@ -271,7 +271,7 @@ class History:
 
     def __init__(self, draw, config, reward_family=None, grid="int", d=None, max_rows=10, min_rows=1,
                  arm_changes=True, exact_only=False, max_d=3, query_rows=(1, 2, 3, 5), series_queries=False,
-                 refit_new_d=False):
+                 refit_new_d=False, query_grid=None):
         self.draw = draw
         self.cfg = config
         self.arms = list(config["arms"])
@@ -293,6 +293,7 @@ class History:
         self.has_prob_list = bool(self.np and self.np[1].get("no_nhood_prob_of_arm"))
         self.series_queries = series_queries
         self.refit_new_d = refit_new_d
+        self.query_grid = query_grid or grid      # queries may come from a finer grid than the training contexts
 
     def _min_fit_rows(self):
         if self.np is None:
@@ -329,7 +330,7 @@ class History:
             if draw(st.integers(0, 11)) == 0:
                 m = draw(st.sampled_from([16, 17, 20, 33]))     # more rows than any worker count (cpu count is 16)
         if self.contextual:
-            return draw(contexts_st(m, self.d, self.grid))
+            return draw(contexts_st(m, self.d, self.query_grid))
         # context-free bandits: None, or 2-D contexts they must ignore
         if draw(st.booleans()):
             return None
